@@ -339,6 +339,19 @@ impl Router {
             Tracker::new(client_id.clone())
         };
 
+        // a resumed session is a member of its shared groups again (handle_disconnection took it out)
+        for request in tracker.data_requests.iter() {
+            if let Some(group_name) = &request.group {
+                self.shared_subscriptions
+                    .entry(group_name.clone())
+                    .or_insert(SharedGroup::new(
+                        request.cursor,
+                        self.config.shared_subscriptions_strategy.clone(),
+                    ))
+                    .add_client(client_id.clone());
+            }
+        }
+
         let ackslog = AckLog::new();
 
         let time = match SystemTime::now().duration_since(SystemTime::UNIX_EPOCH) {
